@@ -2,6 +2,7 @@
   Helper lemmas for C02 (model: ICal/Model/Encode.lean).
 -/
 import ICal.Model.Encode
+import ICal.Lemmas.Parse
 namespace ICal.Enc
 
 /-! ## class of a constructed value -/
@@ -344,5 +345,393 @@ theorem mapRes_mkDDD_periods (ps : List (PyAtom × PyAtom)) :
   induction ps with
   | nil => rfl
   | cons a as ih => simp only [List.map, mapRes, mkDDD, ih]
+
+/-! ## moved from Props: inversions, class equations, list values, put, build -/
+
+theorem kind_date_inv (v : PyVal) (h : (valueKind v).rfcType = some .date) : ∃ d, v = .atom (.date d) := by
+  cases v with
+  | atom a =>
+    cases a with
+    | date d => exact ⟨d, rfl⟩
+    | dt t =>
+      exfalso
+      simp only [valueKind, PyAtom.kind, DT.kind] at h
+      split at h
+      · cases h
+      · split at h <;> cases h
+    | dur s => cases h
+    | time t => cases h
+  | _ => cases h
+
+theorem kind_binary_inv (v : PyVal) (h : (valueKind v).rfcType = some .binary) : ∃ b, v = .binary b := by
+  cases v with
+  | binary b => exact ⟨b, rfl⟩
+  | atom a =>
+    exfalso
+    cases a with
+    | dt t =>
+      simp only [valueKind, PyAtom.kind, DT.kind] at h
+      split at h
+      · cases h
+      · split at h <;> cases h
+    | _ => cases h
+  | _ => cases h
+
+theorem construct1_cDDD (v : PyVal) : construct1 cDDD v = mkDDD v := rfl
+theorem construct1_cDDDLists (v : PyVal) : construct1 cDDDLists v = mkDDDLists (.one v) := rfl
+theorem construct1_cPeriod (v : PyVal) : construct1 cPeriod v = mkPeriod cPeriod v := rfl
+
+theorem alt_cases : ∀ r ∈ rfc5545Props, ∀ τ ∈ r.alts, r.name ≠ nTRIGGER → τ ≠ .period →
+    (τ = .date ∧ (forProperty r.name = cDDD ∨ forProperty r.name = cDDDLists)) ∨ τ = .binary := by
+  decide +kernel
+
+
+/-- the elements of a list of dates / datetimes / durations / times as vDDDLists holds them -/
+def atomVals (as : List PyAtom) : List Val := as.map (fun a => ⟨cDDD, atomText a, atomParams a⟩)
+def periodVals (ps : List (PyAtom × PyAtom)) : List Val :=
+  ps.map (fun p => ⟨cDDD, (Enc.periodText p.1 p.2).getD toIcalError, periodParamsDDD p.1⟩)
+
+/-- A list under RDATE / EXDATE is ONE vDDDLists value (not split element by element). -/
+theorem add_list_atoms (n : Str) (hc : forProperty n = cDDDLists)
+    (hl : Gen.addListNames.contains (lower n) = true) (as : List PyAtom) :
+    addValue n (.list (as.map PyVal.atom)) [] =
+      .ok (.one ⟨cDDDLists, listText (atomVals as), listParams (atomVals as)⟩) := by
+  simp only [addValue, forceUtc, hl, if_true, encodeWhole, hc]
+  have : construct cDDDLists (.list (as.map PyVal.atom)) = mkDDDLists (.list (as.map PyVal.atom)) := rfl
+  rw [this]
+  simp only [mkDDDLists, listElems, mapRes_mkDDD_atoms, mergeParams, List.foldl, Except.map, atomVals]
+
+theorem add_list_periods (n : Str) (hc : forProperty n = cDDDLists)
+    (hl : Gen.addListNames.contains (lower n) = true) (ps : List (PyAtom × PyAtom)) :
+    addValue n (.list (ps.map (fun p => .period p.1 p.2))) [] =
+      .ok (.one ⟨cDDDLists, listText (periodVals ps), listParams (periodVals ps)⟩) := by
+  simp only [addValue, forceUtc, hl, if_true, encodeWhole, hc]
+  have : construct cDDDLists (.list (ps.map (fun p => .period p.1 p.2))) =
+      mkDDDLists (.list (ps.map (fun p => .period p.1 p.2))) := rfl
+  rw [this]
+  simp only [mkDDDLists, listElems, mapRes_mkDDD_periods, mergeParams, List.foldl, Except.map, periodVals]
+
+
+theorem get_put_same (ps : Params) (k : Str) (x : PVal) : Params.get? (Params.put ps k x) k = some x := by
+  have hkk : ((k : Str) == k) = true := by simp
+  unfold Params.put
+  split
+  · rename_i h
+    unfold Params.get?
+    induction ps with
+    | nil => simp at h
+    | cons kv rest ih =>
+      cases hk : (kv.1 == k) with
+      | true => simp only [List.map_cons, hk, if_true, List.find?_cons, hkk, Option.map]
+      | false =>
+        have h' : rest.any (fun kv => kv.1 == k) = true := by simpa [List.any, hk] using h
+        simp only [List.map_cons, hk, Bool.false_eq_true, if_false, List.find?_cons]
+        exact ih h'
+  · rename_i h
+    have h' : ∀ kv ∈ ps, (kv.1 == k) = false := by
+      intro kv hkv
+      cases hb : (kv.1 == k) with
+      | false => rfl
+      | true => exact absurd (List.any_eq_true.mpr ⟨kv, hkv, hb⟩) h
+    unfold Params.get?
+    rw [List.find?_append, List.find?_eq_none.mpr (by intro e he; simp [h' e he])]
+    simp [List.find?]
+
+
+theorem buildList_length : ∀ (subs : List Spec) (cs : List Comp) (o : List Outcome),
+    buildList subs = some (cs, o) → cs.length = subs.length := by
+  intro subs
+  induction subs with
+  | nil => intro cs o h; unfold buildList at h; injection h with h; injection h with h _; subst h; rfl
+  | cons s ss ih =>
+    intro cs o h
+    unfold buildList at h
+    split at h
+    · rename_i c o1 cs' os h1 h2
+      injection h with h; injection h with h _; subst h
+      simp [ih cs' os h2]
+    · cases h
+
+
+/-! ## built trees lie in the domain of C01 (`WF`) -/
+
+theorem forProperty_upper (n : Str) : forProperty (upper n) = forProperty n := by
+  unfold forProperty; rw [CDict.upper_idem']
+
+theorem names_replaceAt (k : Str) (il : Bool) (vs : List Val) : ∀ props : List Entry,
+    (replaceAt k ⟨k, il, vs⟩ props).map (·.name) = props.map (·.name) := by
+  intro props
+  induction props with
+  | nil => rfl
+  | cons e es ih =>
+    cases he : (e.name == k) with
+    | true => simp only [replaceAt, he, if_true, List.map_cons, ih]; rw [beq_str he]
+    | false => simp only [replaceAt, he, Bool.false_eq_true, if_false, List.map_cons, ih]
+
+theorem mem_replaceAt (k : Str) (new : Entry) : ∀ (props : List Entry) (e : Entry),
+    e ∈ replaceAt k new props → e = new ∨ (e ∈ props ∧ (e.name == k) = false) := by
+  intro props
+  induction props with
+  | nil => intro e h; cases h
+  | cons a as ih =>
+    intro e h
+    simp only [replaceAt, List.mem_cons] at h
+    rcases h with h | h
+    · cases ha : (a.name == k) with
+      | true => left; rw [h, ha]; rfl
+      | false => right; rw [ha] at h; simp only [Bool.false_eq_true, if_false] at h; subst h; exact ⟨List.mem_cons_self, ha⟩
+    · rcases ih e h with h' | ⟨h', hn⟩
+      · exact Or.inl h'
+      · exact Or.inr ⟨List.mem_cons_of_mem _ h', hn⟩
+
+theorem hasKey_false_names (props : List Entry) (k : Str) (h : hasKey props k = false) : ∀ e ∈ props, (e.name == k) = false := by
+  intro e he
+  cases hb : (e.name == k) with
+  | false => rfl
+  | true =>
+    have : hasKey props k = true := List.any_eq_true.mpr ⟨e, he, hb⟩
+    rw [h] at this; cases this
+
+theorem mem_setEntry (props : List Entry) (k : Str) (il : Bool) (vs : List Val) (e : Entry)
+    (h : e ∈ setEntry props k il vs) : e = ⟨k, il, vs⟩ ∨ (e ∈ props ∧ (e.name == k) = false) := by
+  rw [setEntry_eq] at h
+  cases hk : hasKey props k with
+  | true => rw [hk] at h; exact mem_replaceAt k _ props e h
+  | false =>
+    rw [hk] at h
+    simp only [Bool.false_eq_true, if_false, List.mem_append, List.mem_singleton] at h
+    rcases h with h | h
+    · exact Or.inr ⟨h, hasKey_false_names props k hk e h⟩
+    · exact Or.inl h
+
+theorem names_setEntry_nodup (props : List Entry) (k : Str) (il : Bool) (vs : List Val)
+    (h : (props.map (·.name)).Nodup) : ((setEntry props k il vs).map (·.name)).Nodup := by
+  rw [setEntry_eq]
+  cases hk : hasKey props k with
+  | true => simp only [if_true]; rw [names_replaceAt]; exact h
+  | false =>
+    simp only [Bool.false_eq_true, if_false, List.map_append, List.map_cons, List.map_nil]
+    rw [List.nodup_append]
+    refine ⟨h, by simp, ?_⟩
+    intro a ha b hb
+    simp only [List.mem_singleton] at hb
+    subst hb
+    obtain ⟨e, he, rfl⟩ := List.mem_map.mp ha
+    intro heq
+    have := hasKey_false_names props b hk e he
+    rw [heq] at this
+    simp at this
+
+theorem accumulate_one (props : List Entry) (k : Str) (v : Val) :
+    accumulate props k (.one v) = setEntry props k (hasKey props k) (valuesOf props k ++ [v]) := by
+  unfold accumulate valuesOf
+  rw [hasKey_eq_find]
+  cases props.find? (fun e => e.name == k) with
+  | none => rfl
+  | some old => rfl
+
+/-- the structural part of C01's `EntryOK` (everything but the decoder fixpoint) -/
+def EntryShape (e : Entry) : Prop :=
+  NameOK e.name ∧ e.vals ≠ [] ∧ e.isList = decide (2 ≤ e.vals.length) ∧ ∀ v ∈ e.vals, v.kind = forProperty e.name
+
+def PropsShape (props : List Entry) : Prop :=
+  (props.map (·.name)).Nodup ∧ ∀ e ∈ props, EntryShape e
+
+theorem propsShape_nil : PropsShape [] := ⟨List.nodup_nil, fun _ h => by cases h⟩
+
+theorem propsShape_accumulate (props : List Entry) (k : Str) (v : Val) (h : PropsShape props)
+    (hk : NameOK k) (hv : v.kind = forProperty k) : PropsShape (accumulate props k (.one v)) := by
+  rw [accumulate_one]
+  refine ⟨names_setEntry_nodup _ _ _ _ h.1, ?_⟩
+  intro e he
+  rcases mem_setEntry _ _ _ _ _ he with rfl | ⟨he', _⟩
+  · -- the new entry
+    cases hf : props.find? (fun e => e.name == k) with
+    | none =>
+      have hh : hasKey props k = false := by rw [hasKey_eq_find, hf]; rfl
+      have hvs : valuesOf props k = [] := by unfold valuesOf; rw [hf]
+      rw [hh, hvs]
+      refine ⟨hk, by simp, by simp, ?_⟩
+      intro w hw
+      simp only [List.nil_append, List.mem_singleton] at hw
+      subst hw; exact hv
+    | some old =>
+      have hh : hasKey props k = true := by rw [hasKey_eq_find, hf]; rfl
+      have hvs : valuesOf props k = old.vals := by unfold valuesOf; rw [hf]
+      have hold : old ∈ props := List.mem_of_find?_eq_some hf
+      have hname : old.name = k := beq_str (by simpa using List.find?_some hf)
+      obtain ⟨_, hne, _, hkinds⟩ := h.2 old hold
+      rw [hh, hvs]
+      refine ⟨hk, by simp, ?_, ?_⟩
+      · have : 1 ≤ old.vals.length := by
+          cases hv' : old.vals with
+          | nil => exact absurd hv' hne
+          | cons _ _ => simp
+        simp only [List.length_append, List.length_cons, List.length_nil]
+        symm; rw [decide_eq_true_iff]; omega
+      · intro w hw
+        simp only [List.mem_append, List.mem_singleton] at hw
+        rcases hw with hw | hw
+        · have := hkinds w hw; rw [hname] at this; exact this
+        · subst hw; exact hv
+  · exact h.2 e he'
+
+theorem forceUtc_one (n : Str) (v : PyVal) (hv : keptTyped v = none) :
+    ∃ v', forceUtc n (.one v) = .one v' ∧ keptTyped v' = none := by
+  unfold forceUtc
+  split
+  · split
+    · exact ⟨_, rfl, rfl⟩
+    · exact ⟨v, rfl, hv⟩
+  · exact ⟨v, rfl, hv⟩
+
+theorem encodeOne_kind (n : Str) (v : PyVal) (upd : List (Str × Option PVal)) (val : Val)
+    (hv : keptTyped v = none) (h : encodeOne n v upd = .ok val) : val.kind = forProperty n := by
+  unfold encodeOne at h
+  rw [hv] at h
+  simp only at h
+  cases hc : construct1 (forProperty n) v with
+  | error e => rw [hc] at h; cases h
+  | ok o =>
+    rw [hc] at h
+    injection h with h
+    subst h
+    show o.kind = forProperty n
+    exact construct1_kind hc
+
+theorem addValue_one_kind (n : Str) (v : PyVal) (upd : List (Str × Option PVal)) (s : Stored)
+    (hv : keptTyped v = none) (h : addValue n (.one v) upd = .ok s) :
+    ∃ val, s = .one val ∧ val.kind = forProperty n := by
+  obtain ⟨v', hf, hv'⟩ := forceUtc_one n v hv
+  unfold addValue at h
+  rw [hf] at h
+  simp only at h
+  cases he : encodeOne n v' upd with
+  | error e => rw [he] at h; cases h
+  | ok val =>
+    rw [he] at h
+    injection h with h
+    exact ⟨val, h.symm, encodeOne_kind n v' upd val hv' he⟩
+
+/-- calls of `add(name, value, parameters)` with one not-yet-typed value under a name the C01
+    domain admits -/
+def ScalarAdd : Op → Prop
+  | .add n (.one v) _ => keptTyped v = none ∧ NameOK (upper n)
+  | _ => False
+
+instance (op : Op) : Decidable (ScalarAdd op) := by
+  cases op with
+  | add n a upd =>
+    cases a with
+    | one v => unfold ScalarAdd; infer_instance
+    | list xs => unfold ScalarAdd; infer_instance
+  | _ => unfold ScalarAdd; infer_instance
+
+theorem propsShape_runOps (comp : Str) : ∀ (ops : List Op) (props props' : List Entry) (outs : List Outcome),
+    (∀ op ∈ ops, ScalarAdd op) → PropsShape props → runOps comp props ops = some (props', outs) →
+    PropsShape props' := by
+  intro ops
+  induction ops with
+  | nil =>
+    intro props props' outs _ hp h
+    unfold runOps at h; injection h with h; injection h with h _; subst h; exact hp
+  | cons op ops ih =>
+    intro props props' outs hall hp h
+    have hop := hall op List.mem_cons_self
+    have hrest : ∀ o ∈ ops, ScalarAdd o := fun o ho => hall o (List.mem_cons_of_mem _ ho)
+    -- every outcome of the first call leaves a mapping of the right shape
+    have step : ∀ p1, applyOp comp props op = .ok p1 → PropsShape p1 := by
+      intro p1 h1
+      cases op with
+      | add n a upd =>
+        cases a with
+        | list xs => exact absurd hop (by simp [ScalarAdd])
+        | one v =>
+          obtain ⟨hv, hn⟩ := hop
+          simp only [applyOp, addProp] at h1
+          cases ha : addValue n (.one v) upd with
+          | error e => rw [ha] at h1; cases h1
+          | ok s =>
+            rw [ha] at h1
+            injection h1 with h1
+            obtain ⟨val, rfl, hk⟩ := addValue_one_kind n v upd s hv ha
+            subst h1
+            exact propsShape_accumulate props (upper n) val hp hn (by rw [forProperty_upper]; exact hk)
+      | _ => exact absurd hop (by simp [ScalarAdd])
+    unfold runOps at h
+    split at h
+    · rename_i p1 h1
+      cases hr : runOps comp p1 ops with
+      | none => rw [hr] at h; cases h
+      | some r =>
+        rw [hr] at h
+        injection h with h; injection h with h _; subst h
+        exact ih p1 r.1 r.2 hrest (step p1 h1) hr
+    · cases hr : runOps comp props ops with
+      | none => rw [hr] at h; cases h
+      | some r =>
+        rw [hr] at h
+        injection h with h; injection h with h _; subst h
+        exact ih props r.1 r.2 hrest hp hr
+    · cases hr : runOps comp props ops with
+      | none => rw [hr] at h; cases h
+      | some r =>
+        rw [hr] at h
+        injection h with h; injection h with h _; subst h
+        exact ih props r.1 r.2 hrest hp hr
+    · cases h
+
+mutual
+/-- component names as C01's domain wants them, scalar adds only -/
+def ScalarSpec : Spec → Prop
+  | .mk name ops subs => upper name = name ∧ escapeChar name = name ∧ (∀ op ∈ ops, ScalarAdd op) ∧ ScalarSpecs subs
+def ScalarSpecs : List Spec → Prop
+  | [] => True
+  | s :: ss => ScalarSpec s ∧ ScalarSpecs ss
+end
+
+mutual
+/-- every value of the tree is a fixpoint of the decoder the parser will call for it -/
+def DecFix (dec : Dec) : Comp → Prop
+  | .mk _ props subs =>
+    (∀ e ∈ props, ∀ v ∈ e.vals, dec (forProperty e.name) v.text (tzArg e.name v.params) = some v.text) ∧ DecFixs dec subs
+def DecFixs (dec : Dec) : List Comp → Prop
+  | [] => True
+  | c :: cs => DecFix dec c ∧ DecFixs dec cs
+end
+
+mutual
+theorem build_wf (dec : Dec) : ∀ (s : Spec) (t : Comp) (o : List Outcome),
+    ScalarSpec s → build s = some (t, o) → DecFix dec t → WF dec t
+  | .mk name ops subs, t, o, hs, hb, hd => by
+    unfold ScalarSpec at hs
+    obtain ⟨h1, h2, h3, h4⟩ := hs
+    unfold build at hb
+    split at hb
+    · rename_i props out cs outs hr hl
+      injection hb with hb; injection hb with hb _; subst hb
+      unfold DecFix at hd
+      unfold WF
+      have hshape := propsShape_runOps name ops [] props out h3 propsShape_nil hr
+      refine ⟨h1, h2, ⟨hshape.1, ?_⟩, buildList_wf dec subs cs outs h4 hl hd.2⟩
+      intro e he
+      obtain ⟨a, b, c, d⟩ := hshape.2 e he
+      exact ⟨a, b, c, fun v hv => ⟨d v hv, hd.1 e he v hv⟩⟩
+    · cases hb
+theorem buildList_wf (dec : Dec) : ∀ (ss : List Spec) (cs : List Comp) (o : List Outcome),
+    ScalarSpecs ss → buildList ss = some (cs, o) → DecFixs dec cs → WFs dec cs
+  | [], cs, o, _, hb, _ => by
+    unfold buildList at hb; injection hb with hb; injection hb with hb _; subst hb; unfold WFs; trivial
+  | s :: ss, cs, o, hs, hb, hd => by
+    unfold ScalarSpecs at hs
+    unfold buildList at hb
+    split at hb
+    · rename_i c o1 cs' os h1 h2
+      injection hb with hb; injection hb with hb _; subst hb
+      unfold DecFixs at hd
+      unfold WFs
+      exact ⟨build_wf dec s c o1 hs.1 h1 hd.1, buildList_wf dec ss cs' os hs.2 h2 hd.2⟩
+    · cases hb
+end
 
 end ICal.Enc
